@@ -247,6 +247,36 @@ func TestVerifC12(t *testing.T) {
 		}
 		r.Eval("derive:" + name)
 	})
+	// the caller REUSES one key buffer (overwritten in place with key after key, also with an earlier key again) and
+	// KEEPS the coordinates it was given: every derivation is that of the bytes the buffer held at the moment of the
+	// call, and what was handed out earlier does not change
+	{
+		var pb [32]byte
+		type kept struct{ x, y, wx, wy []byte }
+		var outs []kept
+		ks := []*big.Int{randScalar(rng), randScalar(rng), randScalar(rng), bi(1), new(big.Int).Set(nm2)}
+		for step := 0; step < hk.N(60, 600); step++ {
+			v := ks[rng.Intn(len(ks))]
+			copy(pb[:], ref.B32(v))
+			x, y, err := DerivePublic(pb[:])
+			want := ref.BaseMulFast(v)
+			if err != nil || !bytes.Equal(x, ref.B32(want.X)) || !bytes.Equal(y, ref.B32(want.Y)) {
+				r.Violation("derivepublic-wrong-point:caller-reuses-its-key-buffer", hk.D{"priv": hk.Hex(pb[:]), "x": hexOrNil(x), "y": hexOrNil(y), "want_x": hk.Hex(ref.B32(want.X)), "err": errStr(err), "step": step})
+				break
+			}
+			if tp := TestPrivateKey(pb[:]); tp != 0 {
+				r.Violation("testprivatekey-rejects-valid-key:caller-reuses-its-key-buffer", hk.D{"priv": hk.Hex(pb[:]), "result": tp})
+			}
+			outs = append(outs, kept{x, y, ref.B32(want.X), ref.B32(want.Y)})
+			r.Eval("derive:reused-key-buffer")
+		}
+		for i, o := range outs {
+			if !bytes.Equal(o.x, o.wx) || !bytes.Equal(o.y, o.wy) {
+				r.Violation("public-key-handed-out-earlier-changed-by-later-calls", hk.D{"call_number": i, "x_now": hk.Hex(o.x), "x_returned": hk.Hex(o.wx)})
+				break
+			}
+		}
+	}
 	for l := 0; l <= 40; l++ {
 		if l == 32 {
 			continue
